@@ -463,6 +463,17 @@ var NamePositions = []struct {
 		addComp(d, "Holder", &Schema{Type: "object", Properties: map[string]*Schema{name: objAB()}})
 		opAt(d, "/x", "GET")
 	}},
+	{"property-nested-inline-objects", func(d *Doc, name string) {
+		// the named property holds an inline object that holds inline objects (two more levels)
+		deep := &Schema{Type: "object", Properties: map[string]*Schema{"q": {Type: "integer"}, "inner_b": {Type: "object", Properties: map[string]*Schema{"c": {Type: "object", Properties: map[string]*Schema{"d": {Type: "integer"}}}}}}}
+		addComp(d, "Holder", &Schema{Type: "object", Properties: map[string]*Schema{name: deep}})
+		opAt(d, "/x", "GET")
+	}},
+	{"body-property-nested-inline-objects", func(d *Doc, name string) {
+		deep := &Schema{Type: "object", Properties: map[string]*Schema{"q": {Type: "integer"}, "inner_b": {Type: "object", Properties: map[string]*Schema{"c": {Type: "object", Properties: map[string]*Schema{"d": {Type: "integer"}}}}}}}
+		o := opAt(d, "/x", "PUT")
+		o.RequestBody = &RequestBody{Content: JSONContent(&Schema{Type: "object", Properties: map[string]*Schema{name: deep}})}
+	}},
 	{"query", func(d *Doc, name string) {
 		opAt(d, "/x", "GET").Parameters = []*Parameter{{Name: name, In: "query", Schema: &Schema{Type: "integer"}}}
 	}},
